@@ -26,4 +26,12 @@ ENTRIES = {
     text="Seeded Hypothesis search over synchronized pairs (estimate = noisy similarity image of the reference, scale ratio 1e-2..1e2, both storage modes, pre-read views) x {rigid, similarity, scale-only, origin} x n: every pose after align() equals the reference application of the returned (r,t,s) in all three views, n restricts the fit (garbage beyond n changes nothing), reference untouched, RMSE not worse than before / Horn optimum / perturbed competitors, re-alignment is the identity, origin alignment maps first pose and keeps relative poses, and the matrix stored by ape()/rpe() maps the unaligned onto the stored estimate for all option combinations.",
     design_ref="5/C04", technique="property-based testing (Hypothesis): reference application of returned parameters + optimality by competitor search + metamorphic idempotence",
     note="Idempotence/parameter comparisons only when the reference singular-value gap ratio > 1e-3; fit comparisons in 80-bit precision with a float64 noise floor."),
+ "C10": dict(
+    text="Exhaustive enumeration of exact grids (integer steps on a line for path lengths where exact hits are decidable, pi/8 yaw grids for angles, all frame deltas) x delta x tolerance x pairing mode through both filters.* and id_pairs_from_delta, plus Hypothesis random sequences (realised deltas, stationary stretches, out-of-range angles) and bulk sequences to 3000 poses; the returned pairs are judged by validity checkers (chain structure, first-reach, admissible start, maximality, closest-within-tolerance, exact band membership, refusals).",
+    design_ref="5/C10", technique="exhaustive enumeration of small exact domains + property-based testing (Hypothesis) with validity-predicate oracles",
+    note="Angle decisions within 1e-9 rad of a threshold accept either outcome (float-level inclusivity of angle thresholds is undecidable); integer path grids are exact (margin 0)."),
+ "C11": dict(
+    text="Down-sampling enumerated exhaustively over every (count, target) with count <= 400 (quick) / 2500 (thorough); motion filter on exhaustive integer-step x pi/8-heading grids and Hypothesis random geometry via a checker walking the kept ids; time crop with every kind of bound; three splitters judged as partitions with exact cut placement; merge judged as a time-sorted union with own stamps/orientations; tagged poses show that position, orientation and timestamp travel together.",
+    design_ref="5/C11", technique="exhaustive enumeration + property-based testing (Hypothesis) with index-law and partition/union predicates on tagged trajectories",
+    note="Spacing bound |id_k - ideal| <= 1; distance/speed/angle decisions within a 1e-9 relative margin accept either outcome, integer grids and time comparisons are exact."),
 }
